@@ -59,6 +59,7 @@ def run(ctx):
     from fast_ticc import admm, matrix_compression as mc, graphical_lasso as gl
     rng = np.random.default_rng(ctx.seed)
     ctx.proof_layer(allowed_axioms=R_AX, coq_deps=["Corr/RunAdmm"])
+    core.note_drift(ctx, ANCHORS)
     cov = core.LineCoverage()
     with cov:
         cases = admm_tie.gen_unit_cases(rng, ctx.budget(150, 600))
